@@ -127,6 +127,12 @@ class Ctx:
                     violations.append(a)
         lines = []
         os.makedirs(REPLAYS, exist_ok=True)
+        for old in os.listdir(REPLAYS):
+            if old.startswith(self.prop + "-"):
+                try:
+                    os.remove(os.path.join(REPLAYS, old))
+                except OSError:
+                    pass
         for i, a in enumerate(violations):
             o = a["violated"][0]
             rp = os.path.join(REPLAYS, "%s-%d.json" % (self.prop, i))
